@@ -67,12 +67,13 @@ def render (w : W) (start : Nat) : String :=
   let starts := sortBy (fun (a b : Nat × Nat × Nat) => a.1 < b.1 || (a.1 == b.1 && a.2.1 < b.2.1)) starts
   let discs := evs.filterMap fun | .discard r id true => some s!"{showReason r}:{id}" | _ => none
   let hooks := evs.filterMap fun | .hook h => some (showHook h) | _ => none
-  let accs := evs.filterMap fun | .reply id back => some (id, back) | _ => none
-  let accs := sortBy (fun (a b : Nat × Bool) => a.1 < b.1) accs
+  let accs := evs.filterMap fun
+    | .reply id back => some (id, if back then "b" else "a") | .portClosed id => some (id, "x") | _ => none
+  let accs := sortBy (fun (a b : Nat × String) => a.1 < b.1) accs
   let panic := if evs.any (fun | .panicked => true | _ => false) then " PANIC" else ""
   match evs.getLast? with
   | some (.snap up q act cap live) =>
-    s!"build=[{joinC builds}] start=[{joinC (starts.map fun (a, i, k) => s!"{a}:{i}:{k}")}] disc=[{joinC discs}] hook=[{joinC hooks}] acc=[{joinC (accs.map fun (i, b) => s!"{i}:{if b then "b" else "a"}")}] up={if up then 1 else 0} q={showOptNat w.blocked q} act={showOptNat w.blocked act} cap={showOptNat w.blocked cap} live=[{joinC (live.map toString)}]{panic}"
+    s!"build=[{joinC builds}] start=[{joinC (starts.map fun (a, i, k) => s!"{a}:{i}:{k}")}] disc=[{joinC discs}] hook=[{joinC hooks}] acc=[{joinC (accs.map fun (i, b) => s!"{i}:{b}")}] up={if up then 1 else 0} q={showOptNat w.blocked q} act={showOptNat w.blocked act} cap={showOptNat w.blocked cap} live=[{joinC (live.map toString)}]{panic}"
   | _ => "no-snap"
 
 def parseOp? (ws : List String) : Option Op :=
@@ -126,7 +127,10 @@ def parseObs? (impl : String) : Option (List Ev) := do
     | [r, i] => do pure (Ev.discard (← parseReason? r) (← i.toNat?) true) | _ => none
   let hooks ← (← bracket? ws "hook").mapM fun b => (parseHook? b).map Ev.hook
   let accs ← (← bracket? ws "acc").mapM fun b => match b.splitOn ":" with
-    | [i, r] => do pure (Ev.reply (← i.toNat?) (r != "a")) | _ => none
+    | [i, r] => do
+      let i ← i.toNat?
+      pure (if r == "x" then Ev.portClosed i else Ev.reply i (r != "a"))
+    | _ => none
   let live ← (← bracket? ws "live").mapM (·.toNat?)
   let up ← kv ws "up"
   let q ← optQ? (← kv ws "q"); let act ← optQ? (← kv ws "act"); let cap ← optQ? (← kv ws "cap")
